@@ -12,6 +12,7 @@
     member); [spec_from qf [] ts] lists them for the whole stream.  [ev_eq]
     compares events with rationals up to [==]. *)
 From Coq Require Import ZArith QArith List Bool.
+From NS Require Gen.Tr Proofs.TrEquiv05.
 From NS Require Import Gen.G05 Model.MusicXml Proofs.MusicXmlSpec Proofs.MusicXml.
 Import ListNotations.
 Local Open Scope Z_scope.
@@ -189,3 +190,17 @@ Example C05_nonvacuous :
   end.
 Proof. exact demo_nonvacuous. Qed.
 Print Assumptions C05_nonvacuous.
+
+(** Source-level tie (second kind): Note.pitch_to_midi_pitch re-translated from its SOURCE on every run
+    (Gen/Tr.v, harness/vt/pytr.py) equals the hand-written model for every step letter (index 0..6 = C D E F G A B,
+    passed as its code point), alteration and octave, and rejects every other step character. *)
+Theorem C05_source_pitch_to_midi_pitch : forall i alter octave, 0 <= i <= 6 ->
+  NS.Gen.Tr.tr_pitch_to_midi_pitch (NS.Proofs.TrEquiv05.step_code i) alter octave =
+  option_map (fun pc => midi_pitch pc alter octave) (step_class i).
+Proof. exact NS.Proofs.TrEquiv05.tr_pitch_to_midi_pitch_eq. Qed.
+Print Assumptions C05_source_pitch_to_midi_pitch.
+
+Theorem C05_source_pitch_rejects_unknown_step : forall c alter octave,
+  ~ (65 <= c <= 71) -> NS.Gen.Tr.tr_pitch_to_midi_pitch c alter octave = None.
+Proof. exact NS.Proofs.TrEquiv05.tr_pitch_to_midi_pitch_rejects. Qed.
+Print Assumptions C05_source_pitch_rejects_unknown_step.
